@@ -656,3 +656,15 @@ func FindingOpen(id string) bool {
 	}
 	return false
 }
+
+func sprint(v any) string { return fmt.Sprintf("%v", v) }
+
+// writeFailLog: plain reproduction file for keeper-level / pure checks (no chain trace).
+func writeFailLog(prop, msg string, hist []string) {
+	path := os.Getenv("VERIF_FAILTRACE")
+	if path == "" {
+		return
+	}
+	bz, _ := json.MarshalIndent(map[string]any{"property": prop, "violation": msg, "history": hist}, "", " ")
+	_ = os.WriteFile(path, bz, 0o644)
+}
